@@ -141,7 +141,7 @@ PROPS["C18"]["fields"] = r"^accum\.|^(begin|end)\.rep|^cons\.cend\.rep"
 
 # more consumers due at once than the per-block limit of the three time queues (launch, infraction
 # parameters, removal); one scripted history per seed (201..209 consumers), slow (about 3 minutes)
-BULK = dict(name="bulk", quick=(1, 1), thorough=(3, 1))
+BULK = dict(name="bulk", quick=(2, 1), thorough=(6, 1))
 for _p in ("C10", "C11", "C20"):
     PROPS[_p]["streams"] = PROPS[_p]["streams"] + [BULK]
 
